@@ -55,6 +55,8 @@ def chunks(tier):
         step = 6 if n <= 4 else 8
         for lo in range(0, ns, step):
             out.append({"kind": "reenc", "n": n, "lo": lo, "hi": min(ns, lo + step), "tier": tier})
+    for n in range(1, (4 if tier == "quick" else 5) + 1):
+        out.append({"kind": "taxonless", "n": n, "tier": tier})
     return out
 
 
@@ -442,6 +444,48 @@ def check_reencode(case, ctx):
             ctx.violation("reencode|saved-frozen-encoding-rewritten", "an immutable encoding saved before the edit changed its values", case)
 
 
+def check_taxonless(case, ctx):
+    """Leaves without a taxon contribute nothing to any leafset: every edge's leafset bitmask is
+    exactly the set of taxa on the leaves below it, whatever the position of the taxon-less leaves
+    in the child order."""
+    from mc import bipcheck
+    shape = tup(case["shape"])
+    n = case["n"]
+    labels = list(labels_for(n))
+    for k in case["blank"]:
+        labels[k] = None
+    full = [l for l in labels_for(n)]
+    ns, bit = build.make_namespace(full, case["ns"])
+    sn = ref.mk(shape, lens=1, labels=labels)
+    tree = build.build_tree((case["rooted"], sn), ns)
+    try:
+        tree.encode_bipartitions(suppress_unifurcations=False, collapse_unrooted_basal_bifurcation=False)
+    except Exception as e:
+        ctx.violation("encode|taxon-less-leaves|exception|%s" % type(e).__name__, repr(e), case)
+        return
+    probs = bipcheck.encoding_problems(tree, bit)
+    if probs:
+        ctx.violation("encode|taxon-less-leaves|%s" % ("rooted" if case["rooted"] else "unrooted"),
+                      "%s with leaves %s lacking a taxon: %s" % (ref.to_newick(sn, False), case["blank"], "; ".join(sorted(set(probs))[:2])), case)
+
+
+def run_taxonless(chunk, ctx):
+    n = chunk["n"]
+    for shape in U.shapes(n):
+        for order in U.all_orders(shape):
+            for rooted in (True, False):
+                for k in range(1, n + 1):
+                    for blank in itertools.combinations(range(n), k):
+                        if k > 2 and k < n:
+                            continue
+                        for cfg in ("exact", "extra_low"):
+                            case = {"kind": "taxonless", "n": n, "shape": order, "rooted": rooted, "ns": cfg, "blank": list(blank)}
+                            ctx.case(("taxonless", order, rooted, cfg, blank), nontrivial=n >= 2)
+                            ctx.count("encodings_with_taxon_less_leaves")
+                            check_taxonless(case, ctx)
+    return None
+
+
 def run_reenc(chunk, ctx):
     n = chunk["n"]
     shapes = U.shapes(n)
@@ -466,6 +510,8 @@ def run_chunk(chunk, ctx):
         return run_big(chunk, ctx)
     if chunk["kind"] == "reenc":
         return run_reenc(chunk, ctx)
+    if chunk["kind"] == "taxonless":
+        return run_taxonless(chunk, ctx)
     n, rooted, tier = chunk["n"], chunk["rooted"], chunk["tier"]
     b = bounds(tier)
     shapes = U.shapes(n)
@@ -684,6 +730,8 @@ def replay(case, ctx):
         check_reconstruct(case, ctx)
     elif k == "predclass":
         check_predicates(case, ctx)
+    elif k == "taxonless":
+        check_taxonless(case, ctx)
     elif k == "reenc":
         check_reencode(case, ctx)
     elif k == "pair":
